@@ -1,14 +1,18 @@
 (* C16, translator tie (points iterator): rectangle::Points::new / Iterator::next of core/src/primitives/rectangle/points.rs
    (its `while` loop is generated as a Fixpoint over explicit fuel; 3 per call always suffices), regenerated from the
-   source on every run by translate/r2c (coq/Gen/SrcRectPoints.v): driving the translated `next` from `Points::new(r)`
-   yields exactly Geometry.points r, and nothing after it.  Statement only (proof: Proofs/SrcRectPoints.v). *)
+   source on every run by translate/r2c (coq/Gen/SrcRectPoints.v): the translated `next` driven from `Points::new(r)`
+   until its first None (src_rect_points_collect n: None = the step budget n ran out before the iterator finished, so "finished"
+   and "out of budget" are distinct results) yields exactly Geometry.points r when n exceeds their number, and does not finish
+   otherwise.  Statement only (proof: Proofs/SrcRectPoints.v). *)
 From EG Require Import Base.Prelude Base.Casts Model.Geometry Proofs.Geometry Gen.SrcGeometry Gen.SrcRectPoints Proofs.SrcRectPoints.
 
-Theorem C16_src_rectangle_points_is_model : forall r extra,
+Theorem C16_src_rectangle_points_is_model : forall r n,
   rect_ok r ->
-  src_rect_points_run (length (points r) + extra) (src_rectangle_Points_new r) = points r.
+  src_rect_points_collect n (src_rectangle_Points_new r) = if (length (points r) <? n)%nat then Some (points r) else None.
 Proof. exact src_rect_points_eq. Qed.
 
 Example C16_src_points_nonvacuous :
-  src_rect_points_run 9 (src_rectangle_Points_new (R (P 1 2) (S 2 2))) = [P 1 2; P 2 2; P 1 3; P 2 3].
-Proof. vm_compute. reflexivity. Qed.
+  src_rect_points_collect 9 (src_rectangle_Points_new (R (P 1 2) (S 2 2))) = Some [P 1 2; P 2 2; P 1 3; P 2 3] /\
+  src_rect_points_collect 4 (src_rectangle_Points_new (R (P 1 2) (S 2 2))) = None /\
+  src_rect_points_collect 1 (src_rectangle_Points_new (R (P 1 2) (S 0 2))) = Some [].
+Proof. repeat split; vm_compute; reflexivity. Qed.
